@@ -147,6 +147,30 @@ def build(flavour="O2", quiet=True):
         link3 = [cxx] + oflags + ["-no-pie", "-o", os.path.join(bdir, "drsim"), main_o] + pobjs + objs + ldflags + ["-lrt", "-lpthread", "-ldl", "-lm"]
         if not _run(link3, log):
             raise RuntimeError("drsim link failed:\n" + "\n".join(log)[:20000])
+        # ptprog: the pthread interpreter linked with the library's own --wrap list against an LD-flavour
+        # build of the library (common + wrap sources), hooks on, simulator runtime linked in
+        if flavour != "asan":        # --wrap=malloc and the ASan allocator do not mix
+            cpp_ld = lib_cppflags("MYTH_WRAP_LD")
+            ljobs, lobjs = [], []
+            for s in COMMON_SRCS + WRAP_SRCS:
+                o = os.path.join(bdir, "ld_" + s[:-2] + ".o")
+                lobjs.append(o)
+                ljobs.append([cc] + oflags + cpp_ld + ["-c", os.path.join(REPO, "src", s), "-o", o])
+            o = os.path.join(bdir, "ld_mvsim_lib.o")
+            lobjs.append(o)
+            ljobs.append([cc] + oflags + cpp_ld + ["-c", os.path.join(VERIF, "sim", "mvsim_lib.c"), "-o", o])
+            o = os.path.join(bdir, "ptprog.o")
+            lobjs.append(o)
+            ljobs.append([cc] + simflags + ["-I" + hdir, "-c", os.path.join(hdir, "ptprog.c"), "-o", o])
+            with ThreadPoolExecutor(max_workers=16) as ex:
+                oks = list(ex.map(lambda c: _run(c, log), ljobs))
+            if not all(oks):
+                raise RuntimeError("ptprog compile failed:\n" + "\n".join(log)[:20000])
+            simobjs = [os.path.join(bdir, "sim_mvsim.o"), os.path.join(bdir, "sim_mvsim_switch.o")]
+            link4 = [cxx] + oflags + ["-no-pie", "-o", os.path.join(bdir, "ptprog"), main_o] + lobjs + simobjs + \
+                    ["@" + os.path.join(REPO, "src", "myth-ld.opts")] + ldflags + ["-lrt", "-lpthread", "-ldl", "-lm"]
+            if not _run(link4, log):
+                raise RuntimeError("ptprog link failed:\n" + "\n".join(log)[:20000])
         open(os.path.join(bdir, ".ok"), "w").write(time.strftime("%F %T"))
         return bdir
     finally:
